@@ -13,6 +13,12 @@ ASSUME = ("Trusted base: g++ 12.2 / clang++ 14 (front end = interpreter of the t
           "vf/model + harness/*.hh, which contains no Au code. ")
 
 CHECKS = {
+    "C01": dict(level="exploration", technique="exhaustive enumeration of (dimension-class pair x operation) programs as accept/reject probes through the C++ front end",
+                text="Every ordered pair of distinct dimension classes (representatives include the near-misses m vs m^2, m/s vs m/s^2, rad vs unitless, N*m vs J, "
+                     "Hz vs 1/s vs kBq) times every operation named in the statement, in Quantity and QuantityPoint form, is compiled and must be rejected; the same "
+                     "expression on same-dimension operands must be accepted (twin, so rejections are not vacuous); trait-style questions are evaluated in a TU "
+                     "that must compile and answer no. Verdicts are sound against diagnostic de-duplication (dedup-aware batches, disagreements re-decided alone).",
+                ref="DESIGN.md §6 C01"),
     "C14": dict(level="exploration", technique="exhaustive enumeration of unit-pair x rep-pair programs and 8-bit operand squares vs the model algebra and raw operators",
                 text="Ordered pairs over the library's 57 units and 12 generated units: product and quotient collapse to a raw number exactly when the model says "
                      "dimension 0 and magnitude 1, otherwise carry the exact product/quotient unit (Dim/Mag read out) and decltype of the raw operator; all "
